@@ -156,6 +156,28 @@ def encodeMsgSend (pre : Bytes) (m : MsgSend) : Bytes :=
     (if m.dst.isEmpty then [] else fieldKey 2 2 ++ lenPrefixed m.dst) ++
     fieldKey 3 2 ++ lenPrefixed (intText m.amount)
 
+/-- a flat amino struct whose fields are all length-delimited (addresses, byte slices, strings, an `Int` as its
+decimal text): field number `num`, `num + 1`, … in order, each written as key ‖ length ‖ bytes and omitted when empty -/
+def encodeFields : Nat → List Bytes → Bytes
+  | _, [] => []
+  | num, b :: rest => (if b.isEmpty then [] else fieldKey num 2 ++ lenPrefixed b) ++ encodeFields (num + 1) rest
+
+/-- the matching decoder for `count` fields starting at number `num` (numbers below 16, so that a key is one byte):
+an absent field reads as empty, an explicitly written empty field is not canonical and is refused -/
+def decodeFields : Nat → Nat → Bytes → Option (List Bytes)
+  | _, 0, [] => some []
+  | _, 0, _ :: _ => none
+  | num, n + 1, [] => (decodeFields (num + 1) n []).map ([] :: ·)
+  | num, n + 1, k :: r =>
+    if k = num * 8 + 2 then
+      match decodeLenPrefixed r with
+      | some (b, rest) => if b.isEmpty then none else (decodeFields (num + 1) n rest).map (b :: ·)
+      | none => none
+    else (decodeFields (num + 1) n (k :: r)).map ([] :: ·)
+
+/-- a registered flat message: its four prefix bytes, then the fields from number 1 -/
+def encodeFlatMsg (pre : Bytes) (fields : List Bytes) : Bytes := pre ++ encodeFields 1 fields
+
 /-! ### store keys of x/pos -/
 
 /-- 8-byte big-endian -/
